@@ -173,6 +173,7 @@ fn run_check(prop: &str, tier: Tier) -> i32 {
         }
         "C09" => {
             check.parts.extend(engines::hostile::run(tier, started));
+            check.parts.push(engines::server::udp_recv_sequences("C09", tier.pick(2, 3)));
         }
         "C08" => {
             check.parts.extend(engines::wire::run("C08", tier, started));
